@@ -55,7 +55,7 @@ type Run struct {
 	Level     string
 
 	start time.Time
-	evals int64
+	evals atomic.Int64 // (a plain int64 is not 64-bit aligned inside a struct on 32-bit targets)
 
 	mu         sync.Mutex
 	cells      map[string]int64
@@ -137,9 +137,9 @@ func (r *Run) Phase(name string) bool {
 	return true
 }
 
-func (r *Run) Eval(n int64) { atomic.AddInt64(&r.evals, n) }
+func (r *Run) Eval(n int64) { r.evals.Add(n) }
 
-func (r *Run) Evals() int64 { return atomic.LoadInt64(&r.evals) }
+func (r *Run) Evals() int64 { return r.evals.Load() }
 
 // Cell counts one observation of a coverage cell.
 func (r *Run) Cell(name string) {
@@ -354,7 +354,7 @@ func (r *Run) Finish() int {
 		}
 	}
 	cov := map[string]interface{}{
-		"evaluations":         r.evals,
+		"evaluations":         r.evals.Load(),
 		"distinct_nontrivial": len(r.cells),
 		"rule":                r.Rule,
 		"samples":             r.samples,
@@ -416,7 +416,7 @@ func (r *Run) Finish() int {
 		fmt.Printf("INCONCLUSIVE property=%s %s\n", r.ID, m)
 	}
 	fmt.Printf("%s %s tier=%s seed=%d evaluations=%d cells=%d violations=%d wall=%.1fs\n", r.ID, verdict, r.Tier, r.Seed,
-		r.evals, len(r.cells), nviol, time.Since(r.start).Seconds())
+		r.evals.Load(), len(r.cells), nviol, time.Since(r.start).Seconds())
 	return code
 }
 
@@ -480,7 +480,8 @@ func Parallel(workers, n int, fn func(w, i int)) {
 	if workers < 1 {
 		workers = 1
 	}
-	var next int64 = -1
+	var next atomic.Int64
+	next.Store(-1)
 	var wg sync.WaitGroup
 	var pmu sync.Mutex
 	var firstPanic interface{}
@@ -503,11 +504,11 @@ func Parallel(workers, n int, fn func(w, i int)) {
 						firstPanic = fmt.Sprintf("%v\n%s", e, debug.Stack())
 					}
 					pmu.Unlock()
-					atomic.StoreInt64(&next, int64(n)) // stop the other workers
+					next.Store(int64(n)) // stop the other workers
 				}
 			}()
 			for {
-				i := int(atomic.AddInt64(&next, 1))
+				i := int(next.Add(1))
 				if i >= n {
 					return
 				}
